@@ -70,6 +70,29 @@ struct AssertFailed {
 };
 extern "C" void xassert(const char *msg, const char *, int) { throw AssertFailed{msg}; }
 
+// Link-time stand-ins for the parts of squid that only the multi-queue classes of
+// Queue.cc (FewToFewBiQueue/MultiQueue owners: shared segments, String ids; not
+// exercised here) refer to. debugs() is off (all levels 0); Must() failures throw.
+#include "SquidString.h"
+#include "ipc/mem/Segment.h"
+#include "base/Assure.h"
+#include <stdexcept>
+int Debug::Levels[MAX_DEBUG_SECTIONS];
+std::ostringstream &Debug::Start(const int, const int) { static std::ostringstream os; os.str(""); return os; }
+void Debug::Finish() {}
+[[ noreturn ]] void ReportAndThrow_(int, const char *description, const SourceLocation &) {
+    throw std::runtime_error(description ? description : "Must() failed");
+}
+std::ostream &SourceLocation::print(std::ostream &os) const { return os; }
+String::String(String const &) { abort(); }
+String::~String() {}
+void String::append(char const *) { abort(); }
+Ipc::Mem::Segment::Segment(const char *const) { abort(); }
+Ipc::Mem::Segment::~Segment() {}
+void Ipc::Mem::Segment::create(const off_t) { abort(); }
+void Ipc::Mem::Segment::open(const bool) { abort(); }
+void *Ipc::Mem::Segment::reserve(size_t) { abort(); }
+
 static const uint32_t Unwritten = 0xFFFFFFFFu;
 
 struct Case {
